@@ -769,6 +769,11 @@ impl Version {
     pub fn parse(s: &str) -> (r: Result<Version, SemverError>)
         ensures match ver_parse(s@) { Some(v) => r is Ok && r->Ok_0@ == v, None => r is Err }
     { unimplemented!() }
+    /// `FromStr for Version` is `Version::parse`
+    #[verifier::external_body]
+    pub fn from_str(s: &str) -> (r: Result<Version, SemverError>)
+        ensures match ver_parse(s@) { Some(v) => r is Ok && r->Ok_0@ == v, None => r is Err }
+    { unimplemented!() }
     pub fn new(major: u64, minor: u64, patch: u64) -> (r: Version)
         ensures r@ == (Ver { major: major as int, minor: minor as int, patch: patch as int, pre: false })
     { Version { major, minor, patch, pre: Prerelease { nonempty: false }, build: BuildMetadata { nonempty: false } } }
@@ -777,6 +782,11 @@ impl Version {
 impl VersionReq {
     #[verifier::external_body]
     pub fn parse(s: &str) -> (r: Result<VersionReq, SemverError>)
+        ensures match req_parse(s@) { Some(q) => r is Ok && r->Ok_0.g@ == q, None => r is Err }
+    { unimplemented!() }
+    /// `FromStr for VersionReq` is `VersionReq::parse`
+    #[verifier::external_body]
+    pub fn from_str(s: &str) -> (r: Result<VersionReq, SemverError>)
         ensures match req_parse(s@) { Some(q) => r is Ok && r->Ok_0.g@ == q, None => r is Err }
     { unimplemented!() }
     #[verifier::external_body]
